@@ -45,7 +45,7 @@ def clause_key(rec_target, ob):
 
 def native_in_subprocess(fn, *args, timeout=120):
     """Run a pyvc.native function in a fresh interpreter (the real code is imported there, never in the prover)."""
-    code = ("import json,sys\nsys.path.insert(0,'/verif')\nfrom pyvc import native\n"
+    code = (f"import json,sys\nsys.path.insert(0,{VERIF!r})\nfrom pyvc import native\n"
             f"r = native.{fn}(*json.loads(sys.argv[1]))\nprint('@@'+json.dumps(r))\n")
     env = dict(os.environ)
     env["PYTHONPATH"] = f"{VERIF}:{os.environ.get('PYVC_REPO_SRC', '/repo/src')}"
@@ -142,7 +142,7 @@ case   : {show}
 detail : {detail}
 """
 import sys, os
-sys.path.insert(0, "/verif"); sys.path.insert(0, os.environ.get("PYVC_REPO_SRC", "/repo/src"))
+sys.path.insert(0, os.environ.get("PYVC_HOME", "/verif")); sys.path.insert(0, os.environ.get("PYVC_REPO_SRC", "/repo/src"))
 from pyvc import native
 r = native.run_cases({b["target"]!r}, {b["spec_mod"]!r}, {b["contract"]!r}, os.environ.get("VERIF_TIER", "quick"))
 for v in r["violations"]:
@@ -206,7 +206,7 @@ sys.exit(1 if r["violations"] else 0)
                     "parameters, identifiers; real API models of the fixture packages); a case is non-trivial when it satisfies the "
                     "contract's precondition; cases are distinct by construction of the enumerators",
             "obligations": n_ob, "discharged": n_dis,
-            "checker_cmd": f"/verif/check {prop} --tier {tier}",
+            "checker_cmd": f"{VERIF}/check {prop} --tier {tier}",
             "trusted_base": TRUSTED_BASE,
             "functions_under_contract": functions,
             "discharged_by_backend": by_backend,
